@@ -47,9 +47,13 @@ C13 == [Item("c13", "data", "", None, <<"d", "e.dat">>) EXCEPT !.pp = TRUE, !.ex
 C14 == [Item("c14", "man", "", None, <<"n.fr.3">>) EXCEPT !.stem = "n", !.locale = "fr", !.sect = "3", !.ext = ".3", !.st = <<E(<<>>, "file", 420, "c14")>>]
 C15 == [Item("c15", "data", "", Rel(<<"share", "x">>), <<"r.dat">>) EXCEPT !.rename = <<"sub", "renamed">>, !.st = <<E(<<>>, "file", 420, "c15")>>]
 C16 == [Item("c16", "symlink", "sp1", AbsD(<<"etc", "x">>), <<"abs lnk">>) EXCEPT !.to = "/usr/share/x/a.dat"]
+\* directories with a declared mode that other rules also install into / below / above
+C17 == [Item("c17", "emptydir", "", Rel(<<"share", "x">>), <<>>) EXCEPT !.mode = 488]       \* where C1, C6, C9, C15 install to
+C18 == [Item("c18", "emptydir", "", Rel(<<"var">>), <<>>) EXCEPT !.mode = 489]                \* parent of C7
+C19 == [Item("c19", "emptydir", "sp1", Rel(<<"share", "S">>), <<>>) EXCEPT !.mode = 448]     \* top directory copied by C5
 
-Catalog == IF CatalogName = "small" THEN {C1, C2, C3, C5, C7, C8, C9, C10}
-           ELSE {C1, C2, C3, C4, C5, C6, C7, C8, C9, C10, C11, C12, C13, C14, C15, C16}
+Catalog == IF CatalogName = "small" THEN {C1, C2, C3, C5, C8, C9, C10, C17}
+           ELSE {C1, C2, C3, C4, C5, C6, C7, C8, C9, C10, C11, C12, C13, C14, C15, C16, C17, C18, C19}
 
 BaseOpts == [prefix |-> <<"usr">>, bindir |-> <<"bin">>, sbindir |-> <<"sbin">>, libdir |-> <<"lib">>,
              includedir |-> <<"include">>, localedir |-> <<"share", "locale">>, datadir |-> <<"share">>,
@@ -70,6 +74,9 @@ Plans == { P \in SUBSET Catalog : Cardinality(P) >= 1 /\ Cardinality(P) <= MaxPl
 D == <<"w", "D">>
 World0 == (<<>> :> Dir(493)) @@ (<<"w">> :> Dir(493)) @@ (<<"usr">> :> Dir(493)) @@ (<<"usr", "keep">> :> File(420, "keep"))
            @@ (<<"etc">> :> Dir(493))
+\* DESTDIR exists and already holds a directory some rules install to (with permissions nobody declared)
+WorldPre == World0 @@ (D :> Dir(448)) @@ (D \o <<"usr">> :> Dir(493)) @@ (D \o <<"usr", "share">> :> Dir(493))
+            @@ (D \o <<"usr", "share", "x">> :> Dir(511))
 PlantPaths == { D \o <<"zz">>, D \o <<"usr", "share", "x", "zz">> }
 
 \* the rule with its sources as they are now (an edited source has new content and a newer time stamp)
@@ -87,7 +94,7 @@ CanonOrder(sel) == CHOOSE f \in Perms(sel) : Canonical(f)
 
 Init == /\ plan \in Plans
         /\ o \in OptsSet
-        /\ fs \in { World0, World0 @@ (D :> Dir(448)) }
+        /\ fs \in IF CatalogName = "small" THEN { World0, WorldPre } ELSE { World0, World0 @@ (D :> Dir(448)), WorldPre }
         /\ log = <<>>
         /\ ver = 0
         /\ bad = {}
